@@ -12,27 +12,40 @@ fail=0; n=0
 run_one() { # prop patch expect label
   local prop=$1 patch=$2 expect=$3 label=$4
   if [ -n "$want" ] && ! echo " $want " | grep -q " $prop "; then return; fi
-  n=$((n+1))
   local wt=/tmp/selftest.$$.$n
   git -C /repo worktree add --detach "$wt" HEAD -q || { echo "SELFTEST-ERROR worktree"; fail=1; return; }
   (cd /repo && ls */zz_verif_*.go 2>/dev/null) | while read f; do cp /repo/$f $wt/$f; done
   if ! git -C "$wt" apply "$(realpath $patch)" 2>/dev/null; then echo "SELFTEST-ERROR $label: patch does not apply"; fail=1; git -C /repo worktree remove --force "$wt"; return; fi
-  out=$(./bin/govc check -prop $prop -repo "$wt" -replays /tmp/selftest.$$.replays 2>&1); rc=$?
-  git -C /repo worktree remove --force "$wt"; rm -rf /tmp/selftest.$$.replays
+  out=$(./bin/govc check -prop $prop -repo "$wt" -replays /tmp/selftest.$$.$n.replays 2>&1); rc=$?
+  git -C /repo worktree remove --force "$wt"; rm -rf /tmp/selftest.$$.$n.replays
   local ok=1
   [ $rc -eq 0 ] && ok=0
   while read -r e; do [ -z "$e" ] && continue; echo "$out" | grep -E "VIOLATION" | grep -qF -- "$e" || ok=0; done < "$expect"
   if [ $ok = 1 ]; then echo "selftest ok    $label: $prop fails on $(tr '\n' ' ' < $expect)"; else echo "SELFTEST-MISS  $label: expected $prop to fail on $(tr '\n' ' ' < $expect); exit=$rc"; echo "$out" | grep -E "VIOLATION|^govc" | head -5; fail=1; fi
 }
+# cases run SELFTEST_JOBS at a time (default 3); each writes its verdict line to a file, printed in order at the end
+jobs_max=${SELFTEST_JOBS:-3}
+outdir=$(mktemp -d /var/tmp/selftest.XXXXXX)
+k=0
+launch() { # prop patch expect label
+  k=$((k+1))
+  ( n=$k; run_one "$@" > "$outdir/$(printf %04d $k).out" 2>&1 ) &
+  while [ "$(jobs -rp | wc -l)" -ge "$jobs_max" ]; do sleep 1; done
+}
 for d in selftest/C*/; do
   prop=$(basename $d)
-  for p in $d*.patch; do [ -f "$p" ] || continue; run_one $prop "$p" "${p%.patch}.expect" "$p"; done
+  for p in $d*.patch; do [ -f "$p" ] || continue; launch $prop "$p" "${p%.patch}.expect" "$p"; done
 done
 for d in seeded/*/; do
   [ -f "$d/expect.txt" ] || continue
   prop=$(jq -r .property $d/meta.json)
   p="$d/patch.diff"; [ -f "$d/patch_rebased.diff" ] && p="$d/patch_rebased.diff"
-  run_one $prop "$p" "$d/expect.txt" "$d"
+  launch $prop "$p" "$d/expect.txt" "$d"
 done
+wait
+cat "$outdir"/*.out 2>/dev/null
+n=$(cat "$outdir"/*.out 2>/dev/null | grep -c "^selftest ok\|^SELFTEST-")
+fail=0; grep -q "^SELFTEST-" "$outdir"/*.out 2>/dev/null && fail=1
+rm -rf "$outdir"
 echo "selftest: $n cases, $( [ $fail = 0 ] && echo all detected || echo SOME MISSED )"
 exit $fail
